@@ -7,7 +7,7 @@
 From Coq Require Import List NArith Bool String.
 Import ListNotations.
 From Indi Require Import Base.Sx Msg.Equality Router.Model Driver.Switch B64.Model Num.Model Driver.Model Driver.Props Driver.Write
-     Client.Model Client.Norm System.Model System.Write System.Ops System.Deliver System.Handshake System.WriteE2E System.Mixed.
+     Client.Model Client.Norm System.Model System.Write System.Ops System.Deliver System.Handshake System.WriteE2E.
 
 (* text, number and BLOB properties: after the whole message, every element holds the last value a
    child of the message gave it and is exactly as before when no child names it; state, flags,
@@ -102,18 +102,3 @@ Theorem a_submitted_write_end_to_end s c e d dn vn a m :
     cl_in_ctl c' = [] /\ cl_in_blob c' = [].
 Proof. exact (client_write_end_to_end s c e d dn vn a m). Qed.
 Print Assumptions a_submitted_write_end_to_end.
-
-(* the same without the restriction on what the driver publishes - uploads to BLOB properties included - and with
-   the whole connection invariant re-established, so that any number of writes and driver operations can follow
-   (System/Mixed.v; the order in which the client takes the answer from its two connections does not matter:
-   System/Reorder.v, System/Orderly.v) *)
-Theorem a_submitted_write_keeps_the_connection s c e d vn a :
-  connected s c e d ->
-  (forall m, submit_msg (cl_mirror c) (d_name d) vn a = Some m -> client_msg (d_name d) (wire m)) ->
-  exists c' d', connected (sstep s (SWrite 0 (d_name d) vn a)) c' e d' /\
-    match submit_msg (cl_mirror c) (d_name d) vn a with
-    | Some m => d' = fst (from_client d (wire m))
-    | None => d' = d
-    end.
-Proof. exact (client_write_keeps_connected s c e d vn a). Qed.
-Print Assumptions a_submitted_write_keeps_the_connection.
